@@ -100,6 +100,15 @@ func vBytes(name string, n int) []byte {
 }
 
 //verif:intrinsic
+func vBytesIn(name string, n int, lo, hi int) []byte {
+	p := make([]byte, n)
+	for i := range p {
+		p[i] = byte(vIntIn(fmt.Sprintf("%s[%d]", name, i), lo, hi))
+	}
+	return p
+}
+
+//verif:intrinsic
 func vChoice(name string, n int) int {
 	m := vLoadModel()
 	k := m.Choices[vUnique(name)]
